@@ -130,4 +130,29 @@ OpsIn(t) ==
   CASE t.k = "un"  -> LET r == OpsIn(t.a) IN [un |-> r.un \cup {t.o}, bin |-> r.bin]
     [] t.k = "bin" -> LET a == OpsIn(t.l) b == OpsIn(t.r) IN [un |-> a.un \cup b.un, bin |-> a.bin \cup b.bin \cup {t.o}]
     [] OTHER -> [un |-> {}, bin |-> {}]
+
+\* ---- operator listings (C03) -------------------------------------------------------------------------
+RECURSIVE Applied(_)       \* operators applied to an operand that depends on a variable
+Applied(t) ==
+  CASE t.k = "un"  -> LET r == Applied(t.a) IN
+                      [un |-> r.un \cup (IF TreeVars(t.a) # {} THEN {t.o} ELSE {}), bin |-> r.bin]
+    [] t.k = "bin" -> LET a == Applied(t.l) b == Applied(t.r) IN
+                      [un |-> a.un \cup b.un,
+                       bin |-> a.bin \cup b.bin \cup (IF TreeVars(t.l) \cup TreeVars(t.r) # {} THEN {t.o} ELSE {})]
+    [] OTHER -> [un |-> {}, bin |-> {}]
+RECURSIVE HasConstOpSub(_) \* some variable-free sub-expression contains an operator
+HasConstOpSub(t) ==
+  CASE t.k = "un"  -> TreeVars(t.a) = {} \/ HasConstOpSub(t.a)
+    [] t.k = "bin" -> TreeVars(t) = {} \/ HasConstOpSub(t.l) \/ HasConstOpSub(t.r)
+    [] OTHER -> FALSE
+NamesOf(T, S) == {T[o].name : o \in S}
+Range(s) == {s[j] : j \in DOMAIN s}
+(* A listing is sorted in Rust string order without duplicates, contains every operator applied to a    *)
+(* variable-dependent operand and nothing that does not occur in the text.                               *)
+ListingOk(T, den, lst) ==
+  LET ap == Applied(den) oc == OpsIn(den) IN
+  /\ IsSortedNames(lst.bin) /\ IsSortedNames(lst.un) /\ IsSortedNames(lst.all)
+  /\ NamesOf(T, ap.bin) \subseteq Range(lst.bin) /\ Range(lst.bin) \subseteq NamesOf(T, oc.bin)
+  /\ NamesOf(T, ap.un) \subseteq Range(lst.un) /\ Range(lst.un) \subseteq NamesOf(T, oc.un)
+  /\ NamesOf(T, ap.bin \cup ap.un) \subseteq Range(lst.all) /\ Range(lst.all) \subseteq NamesOf(T, oc.bin \cup oc.un)
 =============================================================================
